@@ -240,7 +240,7 @@ class C15(Prop):
     theorems = ['BtcVerif.C15.' + t for t in (
         'merkle_loop_eq_rec', 'merkle_root_of_hashes', 'txid_eq', 'merkle_root_eq', 'witness_root_eq',
         'ctor_refuses', 'ctor_decision', 'merkleRoot_length', 'ctor_no_tx', 'serTx_null_witness',
-        'weight_eq_ser', 'weight_eq', 'weight_asserts', 'block_weight_eq')]
+        'weight_eq_ser', 'weight_eq', 'weight_asserts', 'block_weight_eq', 'merkle_mutation_cve')]
     anchors = [('bitcoin/core/__init__.py', 'CBlock.build_merkle_tree_from_txids'),
                ('bitcoin/core/__init__.py', 'CBlock.build_merkle_tree_from_txs'),
                ('bitcoin/core/__init__.py', 'CBlock.calc_merkle_root'),
